@@ -1,7 +1,7 @@
 """Symbolic arguments (havoc of a type) with deterministic variable names, and
 their concretisation from a solver model into JSON for the replay harness."""
 import z3
-from .values import SOpt, FinStr, SStr, SEnum, EnumMember, Obj, OpaqueStr, is_z3
+from .values import SOpt, FinStr, SStr, SEnum, EnumMember, Obj, OpaqueStr, Tok, UTerm, is_z3
 from .interp import MatchVal, GroupVal
 from .models import DT
 from .logic import And, Or, Not, InSet
@@ -159,6 +159,10 @@ def concretize(model, v, world=None):
         return {"kind": "datetime", "fields": [_ev(model, x) for x in v.tup()]}
     if isinstance(v, (tuple, list)):
         return [concretize(model, x, world) for x in v]
+    if isinstance(v, dict):
+        return {str(k): concretize(model, x, world) for k, x in v.items()}
+    if isinstance(v, (Tok, UTerm)):
+        return repr(v)
     if isinstance(v, Obj):
         k = v.cls.name
         out = {"kind": k, "label": v.label}
